@@ -173,14 +173,14 @@ CORE = [
     ('list', ['select', '=~$', 'let1', '?', '?']),                 # $.select(let(x => ?) -> ?)
     ('int', ['defc', 'bin+', '=~$', '?', '?']),                    # def(f, ? + ?) -> f($)
     ('int', ['let1', '=~$', 'defc', '?', '?']),                    # let(x => $) -> def(f, ?) -> f(?)
-    ('list', ['select', '=$', 'select', '?', '?']),                # $.select(?.select(?)): innermost $
+    ('pair', ['select', '=$', 'select', '?', '?']),                # $.select(?.select(?)): innermost $
     ('int', ['with', '=~$', '~1', 'list', '?', '?']),              # with($, 1) -> [?, ?]
     ('dict', ['unpk', '=~$.a', '~1', 'list', '?', '?']),           # [$.a, 1].unpack(x, y) -> [?, ?]
     ('int', ['let1', '=~$', 'let1', '?', '?']),                    # shadowing
     ('rows', ['mem', '?', '?']),                                   # ?.a / ?.b over every child kind
     ('int', ['letp', '=~$x', 'list', '?', '?']),                   # let(?) -> [?, ?]: $ rebinding
     ('int', ['let2', '=~$', '~1', 'bin+', '?', '?']),
-    ('list', ['where', '=$', 'bin>', '?', '?']),
+    ('pair', ['where', '=$', 'bin>', '?', '?']),
     ('int', ['clos', '?', 'list', '~1', '=$', '$x', '?']),
     ('list', ['let1', '=~$', 'select', '?', '?']),                 # let(x => $) -> ?.select(?)
     ('int', ['defc', '=?', 'call', '?']),                          # def(f, ?) -> f(f(?))
